@@ -828,6 +828,10 @@ spif_ustr_trim(spif_ustr_t self)
     spif_charptr_t start, end;
 
     ASSERT_RVAL(!SPIF_USTR_ISNULL(self), FALSE);
+    if (self->len == 0) {
+        /* Nothing to trim, and no last character to look at. */
+        return TRUE;
+    }
     start = self->s;
     end = self->s + self->len - 1;
     for (; isspace((spif_uchar_t) (*start)) && (start < end); start++);
